@@ -27,29 +27,32 @@ for D in (1, 2, 3):
         ens_dims.append(('dimension %d goes to dims (transformed) iff selected, else to howmany_dims (batch), with its extent and its input/output strides, in stable order' % d,
                          'IMPLIES(g_calls == 1, which[%d] ? (%s) : (%s))' % (d, trip('g_dims'), trip('g_hdims'))))
     nsel = ' + '.join('(which[%d] != 0)' % k for k in range(D))
-    Check('F%d_plan' % D, ['C15'], 'fftw', fn='w_F%d_plan' % D, params=['which', 'in_base', 'in', 'out_base', 'out', 'sign'],
-          wrapper=('fftw_plan', 'bool const* which, Z* in_base, L<%d> const* in, Z* out_base, L<%d> const* out, int sign' % (D, D),
-                   'std::array<bool, %d> w{}; for(int k = 0; k != %d; ++k) { w[k] = which[k]; } return multi::fftw_plan_dft(w, in_base, *in, out_base, *out, sign, multi::fftw::estimate);' % (D, D)),
-          cxx={'in': LAY(D), 'out': LAY(D)}, ghosts=G,
-          decl={'which': '_Bool which_obj[%d]; _Bool *which = which_obj;' % D},
-          setup=' '.join('which_obj[%d] = nondet__Bool();' % k for k in range(D)),
-          stubs=[Stub('fftw_plan_guru64_dft', record=[('g_rank', 0, None), ('g_hrank', 2, None), ('g_in', 4, None, 'ptr'), ('g_out', 5, None, 'ptr'), ('g_sign', 6, None), ('g_flags', 7, None)],
-                      ret='g_plan', count='g_calls', ghosts=['g_dims', 'g_hdims'],
-                      decl='struct { I64 n, is, os; } g_dims[%d], g_hdims[%d];' % (D, D),
-                      body='for(int k_ = 0; k_ < %d; k_++){ if(k_ < a0){ g_dims[k_].n = a1[k_].f0; g_dims[k_].is = a1[k_].f1; g_dims[k_].os = a1[k_].f2; } if(k_ < a2){ g_hdims[k_].n = a3[k_].f0; g_hdims[k_].is = a3[k_].f1; g_hdims[k_].os = a3[k_].f2; } }' % D),
-                 # ISO [alg.partitions] std::stable_partition as an executable specification (assumed contract).  The O1 pipeline has specialised
-                 # the instantiation on the library's predicate `get<0>(elem)` (the selection flag, first member of the pair); the stub uses that flag.
-                 Stub(r'std::pair<bool, fftw_iodim64_do_not_use_me>\* std::stable_partition<std::pair<bool, fftw_iodim64_do_not_use_me>\*, boost::multi::fftw_plan_dft<std::complex<double>\*, boost::multi::layout_t<%dl, long>.*' % D,
-                      body='{ long n_ = a1 - a0, k_ = 0, p_; __typeof__(*a0) t_[%d]; __CPROVER_assume(0 <= n_ && n_ <= %d); for(long i_ = 0; i_ < n_; i_++) if(a0[i_].f0) t_[k_++] = a0[i_]; p_ = k_; '
-                           'for(long i_ = 0; i_ < n_; i_++) if(!a0[i_].f0) t_[k_++] = a0[i_]; for(long i_ = 0; i_ < n_; i_++) a0[i_] = t_[i_]; return a0 + p_; }' % (D+1, D+1))],
-          requires=[WF('in', D, zero_based=True), WF('out', D, zero_based=True), '%s == 1 && %s == 1' % (lp('in', D, 'nelems_'), lp('out', D, 'nelems_')),
-                    'in_base != 0 && out_base != 0 && (sign == 1 || sign == -1)', 'g_plan != 0   /* FFTW succeeds in planning */'],
-          lemmas=WF_lemmas('in', D) + WF_lemmas('out', D) + ['LEMMA_MUL0(%s)' % lp(v, k, 'stride_') for v in ('in', 'out') for k in range(D)],
-          ensures=[('exactly one plan is requested from FFTW and returned', 'g_calls == 1 && RET == g_plan'),
-                   ('view bases, sign and FFTW_PRESERVE_INPUT are passed', '(void*)g_in == (void*)in_base && (void*)g_out == (void*)out_base && g_sign == sign && (g_flags & (1U << 4)) != 0'),
-                   ('rank is the number of selected dimensions, the rest are batch dimensions', 'g_rank == %s && g_rank + g_hrank == %d' % (nsel, D))] + ens_dims,
-          covers=[' && '.join('which[%d]' % k for k in range(D)), ' && '.join('!which[%d]' % k for k in range(D))] + (['which[0] && !which[1]', '!which[0] && which[1]'] if D > 1 else []),
-          assigns=[], mode='uf', objbits=12, timeout=1500, unwind=D+3, solvers=('minisat', 'cadical'), cbmc_flags=['--no-pointer-check'])
+    # `_inplace`: input and output are two (possibly differently strided) views of one and the same storage (catches seed C15-3: the harness-owned
+    # objects of the out-of-place form never share a base pointer)
+    for isuf, inplace, OB in (('', False, 'out_base'), ('_inplace', True, 'in_base')):
+        Check('F%d_plan%s' % (D, isuf), ['C15'], 'fftw', fn='w_F%d_plan%s' % (D, isuf), params=['which', 'in_base', 'in'] + ([] if inplace else ['out_base']) + ['out', 'sign'],
+              wrapper=('fftw_plan', ('bool const* which, Z* in_base, L<%d> const* in, L<%d> const* out, int sign' if inplace else 'bool const* which, Z* in_base, L<%d> const* in, Z* out_base, L<%d> const* out, int sign') % (D, D),
+                       'std::array<bool, %d> w{}; for(int k = 0; k != %d; ++k) { w[k] = which[k]; } return multi::fftw_plan_dft(w, in_base, *in, %s, *out, sign, multi::fftw::estimate);' % (D, D, OB)),
+              cxx={'in': LAY(D), 'out': LAY(D)}, ghosts=G,
+              decl={'which': '_Bool which_obj[%d]; _Bool *which = which_obj;' % D},
+              setup=' '.join('which_obj[%d] = nondet__Bool();' % k for k in range(D)),
+              stubs=[Stub('fftw_plan_guru64_dft', record=[('g_rank', 0, None), ('g_hrank', 2, None), ('g_in', 4, None, 'ptr'), ('g_out', 5, None, 'ptr'), ('g_sign', 6, None), ('g_flags', 7, None)],
+                          ret='g_plan', count='g_calls', ghosts=['g_dims', 'g_hdims'],
+                          decl='struct { I64 n, is, os; } g_dims[%d], g_hdims[%d];' % (D, D),
+                          body='for(int k_ = 0; k_ < %d; k_++){ if(k_ < a0){ g_dims[k_].n = a1[k_].f0; g_dims[k_].is = a1[k_].f1; g_dims[k_].os = a1[k_].f2; } if(k_ < a2){ g_hdims[k_].n = a3[k_].f0; g_hdims[k_].is = a3[k_].f1; g_hdims[k_].os = a3[k_].f2; } }' % D),
+                     # ISO [alg.partitions] std::stable_partition as an executable specification (assumed contract).  The O1 pipeline has specialised
+                     # the instantiation on the library's predicate `get<0>(elem)` (the selection flag, first member of the pair); the stub uses that flag.
+                     Stub(r'std::pair<bool, fftw_iodim64_do_not_use_me>\* std::stable_partition<std::pair<bool, fftw_iodim64_do_not_use_me>\*, boost::multi::fftw_plan_dft<std::complex<double>\*, boost::multi::layout_t<%dl, long>.*' % D,
+                          body='{ long n_ = a1 - a0, k_ = 0, p_; __typeof__(*a0) t_[%d]; __CPROVER_assume(0 <= n_ && n_ <= %d); for(long i_ = 0; i_ < n_; i_++) if(a0[i_].f0) t_[k_++] = a0[i_]; p_ = k_; '
+                               'for(long i_ = 0; i_ < n_; i_++) if(!a0[i_].f0) t_[k_++] = a0[i_]; for(long i_ = 0; i_ < n_; i_++) a0[i_] = t_[i_]; return a0 + p_; }' % (D+1, D+1))],
+              requires=[WF('in', D, zero_based=True), WF('out', D, zero_based=True), '%s == 1 && %s == 1' % (lp('in', D, 'nelems_'), lp('out', D, 'nelems_')),
+                        'in_base != 0 && %s != 0 && (sign == 1 || sign == -1)' % OB, 'g_plan != 0   /* FFTW succeeds in planning */'],
+              lemmas=WF_lemmas('in', D) + WF_lemmas('out', D) + ['LEMMA_MUL0(%s)' % lp(v, k, 'stride_') for v in ('in', 'out') for k in range(D)],
+              ensures=[('exactly one plan is requested from FFTW and returned', 'g_calls == 1 && RET == g_plan'),
+                       ('view bases, sign and FFTW_PRESERVE_INPUT are passed', '(void*)g_in == (void*)in_base && (void*)g_out == (void*)%s && g_sign == sign && (g_flags & (1U << 4)) != 0' % OB),
+                       ('rank is the number of selected dimensions, the rest are batch dimensions', 'g_rank == %s && g_rank + g_hrank == %d' % (nsel, D))] + ens_dims,
+              covers=[' && '.join('which[%d]' % k for k in range(D)), ' && '.join('!which[%d]' % k for k in range(D))] + (['which[0] && !which[1]', '!which[0] && which[1]'] if D > 1 else []),
+              assigns=[], mode='uf', objbits=12, timeout=1500, unwind=D+3, solvers=('minisat', 'cadical'), cbmc_flags=['--no-pointer-check'])
 
 # ---------------------------------------------------------------------------------------------------------------------
 # fftw::dft(which, in, out, sign): plan lifetime and execution.  fftw_plan_dft (proved above) is used through its contract (recording stub);
